@@ -385,7 +385,15 @@ fn special_quantities() -> impl Strategy<Value = String> {
 /// and exponents that do not fit an i32 (so the call fails with a bad-argument error somewhere inside), zero,
 /// tiny values, values with units, wrong arities.
 fn builtin_calls() -> impl Strategy<Value = String> {
-    let name = || prop_oneof![Just("sin"), Just("cos"), Just("round"), Just("floor"), Just("ceil"), Just("nosuch")];
+    // known names, near misses of them, and names over the whole word alphabet (letters, digits, the degree sign,
+    // the apostrophe): whatever the tool says about an unknown function, it says it without falling over
+    let name = || {
+        prop_oneof![
+            6 => prop_oneof![Just("sin"), Just("cos"), Just("round"), Just("floor"), Just("ceil"), Just("nosuch")].prop_map(|s| s.to_string()),
+            2 => prop_oneof![Just("roun"), Just("rounds"), Just("flor"), Just("ciel"), Just("Sin"), Just("COS"), Just("°C"), Just("c°s"), Just("f°o"), Just("°"), Just("a°"), Just("°°°"), Just("it's"), Just("'"), Just("r°und"), Just("to"), Just("m"), Just("km")].prop_map(|s| s.to_string()),
+            2 => "[a-zA-Z0-9°']{1,9}".prop_map(|s| s),
+        ]
+    };
     let edge = prop_oneof![
         Just("0"), Just("-0.0"), Just("1e308"), Just("1.8e308"), Just("1e309"), Just("-1e400"), Just("1e999"), Just("1e-999"), Just("-1e-400"), Just("0.5"),
         Just("1e200 * 1e200"), Just("2 ^ 64"), Just("1 / 3"), Just("3 m"), Just("1e309 km"), Just("-273.15 °C"), Just("100%"),
